@@ -46,76 +46,85 @@ LinksOf(L) == CASE L = 1 -> {"a:r1"}
                 [] L = 3 -> {"b:r2"}
                 [] OTHER -> {}
 
-ObsInit == [ book  |-> << >>,   \* loc -> latest successful write of a registration that was not removed
+ObsInit == [ book  |-> << >>,   \* <<ep, d>> -> latest successful write of a registration that was not removed
              bad   |-> {},      \* clauses found false
-             blame |-> {} ]     \* <<k, vg>> of the failed writes a violation is attributed to
+             blame |-> {} ]     \* <<k, vg, cls>> of the failed writes a violation is attributed to
 
 (* a registration of the book is listed at time t iff its latest successful  *)
 (* write is younger than lifetime + grace                                    *)
 Live(b, t) == t < b.w + b.lt + Grace
-LiveLocs(o, t) == {l \in DOMAIN o.book : Live(o.book[l], t)}
+LiveKeys(o, t) == {q \in DOMAIN o.book : Live(o.book[q], t)}
+(* the registrations of the book a request to location loc is aimed at: the  *)
+(* live one(s) with that location, else expired ones that were not removed   *)
+AtLoc(o, loc, t) == LET all == {q \in DOMAIN o.book : o.book[q].loc = loc}
+                        lv  == {q \in all : Live(o.book[q], t)}
+                    IN IF lv # {} THEN lv ELSE all
 
 Flag(o, c, who) == [o EXCEPT !.bad = @ \cup {c}, !.blame = @ \cup who]
 FlagIf(o, cond, c) == IF cond THEN Flag(o, c, {}) ELSE o
 
-SameKey(o, e) == {l \in DOMAIN o.book : o.book[l].ep = e.ep /\ o.book[l].d = e.d}
-
-Taint(o, ls, e) ==
-  [o EXCEPT !.book = [l \in DOMAIN @ |-> IF l \in ls THEN [@[l] EXCEPT !.taint = @ \cup {<<e.k, e.vg>>}] ELSE @[l]]]
+(* the latest write aimed at these registrations that was not answered 2.xx *)
+Taint(o, qs, e) ==
+  [o EXCEPT !.book = [q \in DOMAIN @ |-> IF q \in qs THEN [@[q] EXCEPT !.taint = {<<e.k, e.vg, e.cls>>}] ELSE @[q]]]
 
 (* -- registration ---------------------------------------------------------- *)
+(* (a location handed out while the book has another live registration      *)
+(* there is judged by the lookups: either both are listed with one location *)
+(* -- LocationsDistinct -- or the older one is missing)                     *)
 ObsReg(o, e) ==
-  LET same     == SameKey(o, e)
-      liveSame == {l \in same : Live(o.book[l], e.t)}
+  LET key  == <<e.ep, e.d>>
+      live == Has(o.book, key) /\ Live(o.book[key], e.t)
   IN IF e.cls = 2 /\ e.loc # 0
-       THEN LET o1 == FlagIf(o, \E l \in liveSame : l # e.loc, "C20_ReRegisterKeepsLocation")
-                o2 == FlagIf(o1, Has(o.book, e.loc) /\ e.loc \notin same /\ Live(o.book[e.loc], e.t),
-                             "C20_LocationsDistinct")
-                new == [ep |-> e.ep, d |-> e.d, lt |-> EffLt(e.lt),
+       THEN LET o1 == FlagIf(o, live /\ o.book[key].loc # e.loc, "C20_ReRegisterKeepsLocation")
+                \* expired, never removed registrations that had this location are superseded
+                stale == {q \in DOMAIN o.book : o.book[q].loc = e.loc /\ ~Live(o.book[q], e.t)}
+                new == [loc |-> e.loc, lt |-> EffLt(e.lt),
                         base |-> IF e.base # 0 THEN e.base ELSE SrcBase(e.src),
                         expl |-> e.base # 0, x |-> e.x, links |-> e.links,
                         w |-> e.t, taint |-> {}]
-            IN [o2 EXCEPT !.book = Put(Drop(@, same \cup {e.loc}), e.loc, new)]
-     ELSE IF e.cls = 4
-       THEN Taint(o, liveSame, e)       \* a failed write aimed at these: they must not change
+            IN [o1 EXCEPT !.book = Put(Drop(@, stale), key, new)]
+     ELSE IF e.cls # 2 /\ live
+       THEN Taint(o, {key}, e)          \* a failed write aimed at it: it must not change
      ELSE o
 
 (* -- update (POST) and replace (PUT) of a registration resource ------------ *)
 ObsUpd(o, e) ==
-  IF ~Has(o.book, e.loc) THEN o
-  ELSE IF e.cls = 2
-    THEN LET b == o.book[e.loc]
-             nb == [b EXCEPT !.lt    = IF e.lt # 0 THEN e.lt ELSE @,
-                             !.base  = IF e.base # 0 THEN e.base ELSE IF b.expl THEN @ ELSE SrcBase(e.src),
-                             !.expl  = b.expl \/ e.base # 0,
-                             !.x     = IF e.x # 0 THEN e.x ELSE @,
-                             !.links = IF e.k = "put" THEN e.links ELSE @,
-                             !.w     = e.t,
-                             !.taint = {}]
-         IN [o EXCEPT !.book[e.loc] = nb]
-  ELSE IF e.cls = 4 THEN Taint(o, {e.loc}, e)
-  ELSE o
+  LET qs == AtLoc(o, e.loc, e.t)
+      Upd(b) == [b EXCEPT !.lt    = IF e.lt # 0 THEN e.lt ELSE @,
+                          !.base  = IF e.base # 0 THEN e.base ELSE IF b.expl THEN @ ELSE SrcBase(e.src),
+                          !.expl  = b.expl \/ e.base # 0,
+                          !.x     = IF e.x # 0 THEN e.x ELSE @,
+                          !.links = IF e.k = "put" THEN e.links ELSE @,
+                          !.w     = e.t,
+                          !.taint = {}]
+  IN IF e.cls = 2
+       THEN [o EXCEPT !.book = [q \in DOMAIN @ |-> IF q \in qs THEN Upd(@[q]) ELSE @[q]]]
+     ELSE Taint(o, qs, e)
 
-ObsDel(o, e) == IF e.cls = 2 /\ Has(o.book, e.loc) THEN [o EXCEPT !.book = Drop(@, {e.loc})] ELSE o
+ObsDel(o, e) == IF e.cls = 2 THEN [o EXCEPT !.book = Drop(@, AtLoc(o, e.loc, e.t))] ELSE o
 
 (* -- lookups ------------------------------------------------------------------ *)
-EpRec(l, b) == [loc |-> l, ep |-> b.ep, d |-> b.d, base |-> b.base, x |-> b.x]
-ResRecs(b) == {[base |-> b.base, ep |-> b.ep, d |-> b.d, link |-> k] : k \in LinksOf(b.links)}
+EpRec(q, b) == [loc |-> b.loc, ep |-> q[1], d |-> q[2], base |-> b.base, x |-> b.x]
+ResRecs(q, b) == {[base |-> b.base, ep |-> q[1], d |-> q[2], link |-> k] : k \in LinksOf(b.links)}
 
-ExpectedEps(o, t) == {EpRec(l, o.book[l]) : l \in LiveLocs(o, t)}
-ExpectedRes(o, t) == UNION {ResRecs(o.book[l]) : l \in LiveLocs(o, t)}
+ExpectedEps(o, t) == {EpRec(q, o.book[q]) : q \in LiveKeys(o, t)}
+ExpectedRes(o, t) == UNION {ResRecs(q, o.book[q]) : q \in LiveKeys(o, t)}
 
 (* failed writes that explain a difference at these registrations *)
-TaintOf(o, ls) == UNION {o.book[l].taint : l \in ls \cap DOMAIN o.book}
+TaintOf(o, qs) == UNION {o.book[q].taint : q \in qs \cap DOMAIN o.book}
 
-Mismatch(o, who) == IF who # {} THEN Flag(o, "C20_FailedWriteChangesNothing", who)
-                    ELSE Flag(o, "C20_LookupsAreLive", {})
+(* a difference at a registration whose latest write was answered 4.xx is   *)
+(* a failed write that changed the directory; any other difference is a     *)
+(* lookup that does not reflect the successful writes                       *)
+Mismatch(o, who) == IF \E f \in who : f[3] = 4
+                      THEN Flag(o, "C20_FailedWriteChangesNothing", {f \in who : f[3] = 4})
+                      ELSE Flag(o, "C20_LookupsAreLive", who)
 
 ObsLkEp(o, e) ==
   LET exp  == ExpectedEps(o, e.t)
       got  == e.eps
       diff == (exp \ got) \cup (got \ exp)
-      who  == TaintOf(o, {r.loc : r \in diff})
+      who  == TaintOf(o, {<<r.ep, r.d>> : r \in diff})
       o1   == IF e.cls # 2 THEN (IF exp # {} THEN Flag(o, "C20_LookupsAreLive", {}) ELSE o)
               ELSE IF diff # {} \/ e.n # Cardinality(exp) THEN Mismatch(o, who) ELSE o
       o2   == FlagIf(o1, e.cls = 2 /\ (\/ e.n > Cardinality(got)
@@ -129,8 +138,7 @@ ObsLkRes(o, e) ==
   LET exp   == ExpectedRes(o, e.t)
       got   == e.res
       diff  == (exp \ got) \cup (got \ exp)
-      dkeys == {<<r.ep, r.d>> : r \in diff}
-      who   == TaintOf(o, {l \in DOMAIN o.book : <<o.book[l].ep, o.book[l].d>> \in dkeys})
+      who   == TaintOf(o, {<<r.ep, r.d>> : r \in diff})
   IN IF e.cls # 2 THEN (IF exp # {} THEN Flag(o, "C20_LookupsAreLive", {}) ELSE o)
      ELSE IF diff # {} \/ e.n # Cardinality(exp) THEN Mismatch(o, who) ELSE o
 
